@@ -177,7 +177,12 @@ impl Stats {
     }
     /// Records a non-trivial case by its canonical hash.
     pub fn nontrivial(&mut self, h: u64) {
-        self.nontrivial.insert(h);
+        // memory bound for very long runs: beyond the cap the count is a lower bound
+        if self.nontrivial.len() < 3_000_000 {
+            self.nontrivial.insert(h);
+        } else {
+            *self.counters.entry("nontrivial_beyond_distinct_cap".to_string()).or_insert(0) += 1;
+        }
     }
     pub fn want_sample(&self) -> bool {
         self.samples.len() < self.sample_cap
@@ -326,7 +331,9 @@ impl Ctx {
             .ok()
             .and_then(|s| s.parse::<f64>().ok())
             .unwrap_or(1.0);
-        let b = if self.quick() { quick } else { thorough };
+        // quick budgets in the check modules are base units; the quick tier runs 8 units
+        // (fixed work, seconds to tens of seconds per property on 16 cores)
+        let b = if self.quick() { quick.saturating_mul(8).min(thorough.max(quick)) } else { thorough };
         ((b as f64) * scale).ceil() as u64
     }
     pub fn is_open_known(&self, sig: &str) -> bool {
